@@ -28,7 +28,7 @@ func main() {
 	}
 	rng := wh.NewRng(a.Seed)
 	emit := func(sc rl.Scenario) bool {
-		rl.Emit(out, rl.Run(sc))
+		rl.Emit(out, rl.RunMaybeIsolated(sc))
 		if rl.TooManyStuck() {
 			out.Note("stopped generating: three scenarios ran into the liveness bound")
 			return false
